@@ -39,6 +39,13 @@ def adversarial_policy(rng, nw):
     kind = rng.choice(['lock', 'lock', 'lock', 'can_load', 'dump', 'unlock', 'start', 'ret'])
     d = {'seed': rng.randrange(1 << 30), 'base': rng.choice(['random', 'rr', 'serial']), 'flavour': 'adversarial:' + kind,
          'stall_at': [[k, kind, rng.choice([20, 60, 200, 1000]), occ] for occ in sorted(rng.sample(range(6), rng.randint(1, 3)))]}
+    if rng.random() < 0.4:
+        # another worker joins late, and a long time has gone by since the parked one took its lock
+        late = rng.randint(10, 120)
+        d['late'] = {str((k + 1) % nw): late}
+        d['time_passes'] = [[rng.randint(5, late), rng.choice(X.LONG_TIMES)]]
+    elif rng.random() < 0.5:
+        X.add_time_passes(rng, d)
     return d
 
 
@@ -98,6 +105,8 @@ def run(ck):
         res = b.run(sc, ORACLES)
         if res is not None:
             ck.count('policy:' + sc['phases'][0]['policy'].get('flavour', sc['phases'][0]['policy'].get('base', '?')).split(':')[0])
+            if sc['backend'] == 'redis' and any(n.startswith('time-passes') for n in res.notes):
+                ck.count('redis runs in which a long time passes between scheduling points')
             if len(ck.samples) < 3 and len(res.trace) > 20:
                 ck.sample({'program': sc['program'], 'backend': sc['backend'], 'events': [X.ev_show(e) for e in res.trace[:40]]})
     enumerated(ck, b)
